@@ -6,6 +6,7 @@ holder/engine or the constructor/destructor of an RAII guard whose destructor un
 constructor did; primitives are called from nowhere else; guards exist only as automatic objects, so the
 C++ language runs the matching destructor on every exit, normal or exceptional.
 """
+import re
 from collections import Counter
 
 from ..ir import walk, AnalysisBroken, strip_targs
@@ -242,6 +243,12 @@ def run(chk):
             if n.get("k") == "decl":
                 for v in n.get("vars", []):
                     t = norm(prog.T(f, v["t"]))
+                    wrapped = [g_ for g_ in guard_classes if t != g_ and re.search(r"[<, ]%s[>, ]" % re.escape(g_), t)]
+                    if wrapped:
+                        r93.ob("%s/local %s wraps a guard: %s" % (strip_targs(f["q"]), v["name"], t[:60]), False, "%s:%d" % (f["file"], v["l"]), f["q"],
+                               "a guard inside optional/unique_ptr/a container is constructed (or not) and destroyed under program control: the close is no longer tied to scope exit on every path, "
+                               "and code that ran with the guard in one call runs without it in another")
+                        chk.touched([f])
                     if t in guard_classes:
                         nobj += 1
                         ok = not v.get("static") and not v.get("ref") and not v.get("tls")
@@ -308,13 +315,14 @@ def run(chk):
         pr = PathResolver(prog, f)
         calls = [n for n in walk(f["body"]) if n.get("k") == "call" and n.get("name") == "enable_conversion_saves"]
         ok = False
+        from ..paths import ref_inits as _ri
+        flocals = _ri(f)
         why = "conversion saves are not %s under `call_depth == 0`" % ("enabled" if toggles else "disabled")
         for c in calls:
             flag = strip_casts(c["args"][-1])
             from ..flow import atomic_facts
             facts = list(atomic_facts(flow, c))
-            zero = any(t and a.get("k") == "binop" and a.get("op") == "==" and shape_slot(pr.path(a["lhs"]) or []) == "call_depth" and
-                       strip_casts(a["rhs"]).get("v") == 0 for a, t in facts)
+            zero = any(depth_is_zero(a, t, pr, flocals) for a, t in facts)
             if zero and flag.get("k") == "lit" and bool(flag.get("v")) == toggles:
                 # position relative to the ++ / --
                 incs = [n for n in walk(f["body"]) if n.get("k") == "unop" and n.get("op") in ("++", "--")]
@@ -329,7 +337,7 @@ def run(chk):
             okc = False
             for c in clears:
                 facts = list(atomic_facts(flow, c))
-                okc = okc or any(t and a.get("k") == "binop" and a.get("op") == "==" and shape_slot(pr.path(a["lhs"]) or []) == "call_depth" for a, t in facts)
+                okc = okc or any(depth_is_zero(a, t, pr, flocals) for a, t in facts)
             r95.ob("%s/saved parameters cleared when depth returns to 0" % strip_targs(f["q"]), okc, f.where, f["q"],
                    "call_params.back() is not cleared under `call_depth == 0`")
     r95.require(6, "obligations")
@@ -412,3 +420,22 @@ def throwing_after_open(prog, ef, c, nonzero, fn_of):
             d = prog.decls.get((u, n["fn"]))
             bad.append((n, d["name"] if d else "?", th))
     return bad
+
+
+def depth_is_zero(a, t, pr, flocals, depth=0):
+    """fact (a, t) establishes call_depth == 0: `call_depth == 0` true, `call_depth != 0` false, or a bool local initialised with one of them"""
+    a = strip_casts(a)
+    while a.get("k") == "paren":
+        a = strip_casts(a["e"])
+    if a.get("k") == "ref" and a.get("rk") == "local" and depth < 3:
+        v = flocals.get(a.get("vid"))
+        if v is not None and v.get("init") is not None:
+            return depth_is_zero(v["init"], t, pr, flocals, depth + 1)
+        return False
+    if a.get("k") == "unop" and a.get("op") == "!":
+        return depth_is_zero(a["e"], not t, pr, flocals, depth + 1)
+    if a.get("k") == "binop" and a.get("op") in ("==", "!="):
+        for x, y in ((a["lhs"], a["rhs"]), (a["rhs"], a["lhs"])):
+            if shape_slot(pr.path(x) or []) == "call_depth" and strip_casts(y).get("v") == 0:
+                return bool(t) if a["op"] == "==" else not t
+    return False
